@@ -173,6 +173,10 @@ def make_stubs():
         def __init__(self, seconds):
             self.seconds_total = seconds
 
+        def __radd__(self, other):
+            # datetime + timedelta: an opaque later instant
+            return ("opaque-datetime", other, self.seconds_total)
+
     def timedelta_stub(I, *a, **kw):
         """datetime.timedelta(seconds=n) on a symbolic int: OverflowError beyond
         999999999 days, else an opaque value"""
